@@ -180,6 +180,20 @@ func scheduleAlphabet() []namedSchedule {
 		delete(m[vmcommon.BaseOperationCostString], f)
 		out = append(out, namedSchedule{"S2[-" + f + "]", m})
 	}
+	// flat schedules (every field the same value) and single-field deviations from them: a setter
+	// that compares old and new prices, or the wrong pair of fields, is blind to all-distinct values
+	flat := world.MakeSchedule(func(int) uint64 { return 7 })
+	out = append(out, namedSchedule{"flat7", flat})
+	for _, f := range world.BuiltInFields {
+		d := flat.Clone()
+		d[vmcommon.BuiltInCostString][f] = 9
+		out = append(out, namedSchedule{"flat7[" + f + "=9]", d})
+	}
+	for _, f := range world.BaseFields {
+		d := flat.Clone()
+		d[vmcommon.BaseOperationCostString][f] = 9
+		out = append(out, namedSchedule{"flat7[" + f + "=9]", d})
+	}
 	noBI := s2.Clone()
 	delete(noBI, vmcommon.BuiltInCostString)
 	noBO := s2.Clone()
